@@ -4,6 +4,7 @@ import (
 	"bytes"
 	"fmt"
 	"reflect"
+	"strings"
 
 	st "github.com/irismod/service/types"
 )
@@ -22,6 +23,15 @@ func (oracleC09) Step(x *OCtx, t *Trans) []Violation {
 	kind := a.Kind
 	H := t.Pre.H
 	add := func(clause, disc, detail string) { out = append(out, viol("C09", clause, kind, disc, detail)) }
+	// "a consumer's inability to pay a batch moves running to paused": the inability must be real. The reference
+	// decision of DESIGN 9.B (shared with C06) says whether the consumer could pay the batch that was due.
+	if rg := x.Sc.Rig; kind == "E" && !rg.Reentrant && !rg.ReentrantRestart && !rg.ReentrantSelfKill && !rg.ReentrantPauseSiblings {
+		for _, v := range (oracleC06{}).Step(x, t) {
+			if v.Clause == "batch-decision-follows-eligibility-threshold-and-balance" && strings.HasSuffix(v.Sig, "/got=pause") {
+				add("paused-only-when-the-consumer-cannot-pay", v.Sig[strings.LastIndex(v.Sig, "|")+1:], v.Detail)
+			}
+		}
+	}
 
 	// kills made by the owning module from inside a callback during this step (keeper API)
 	cbKilled, cbSelf := map[string]bool{}, map[string]bool{}
@@ -29,6 +39,19 @@ func (oracleC09) Step(x *OCtx, t *Trans) []Violation {
 		if cb.Kind == "kill" || cb.Kind == "selfkill" {
 			cbKilled[cb.Ctx] = true
 			cbSelf[cb.Ctx] = cb.Kind == "selfkill"
+		}
+	}
+	// batches are issued only while running: a context its module paused inside a callback gets no batch after that
+	cbPaused := map[string]bool{}
+	for _, cb := range t.Res.Callbacks {
+		if cb.Kind != "pause" {
+			continue
+		}
+		cbPaused[cb.Ctx] = true
+		x.Wit("C09:paused-by-its-module-inside-a-callback")
+		if pc, qc := t.Pre.Ctxs[cb.Ctx], t.Post.Ctxs[cb.Ctx]; pc != nil && qc != nil && cb.BatchCounter == pc.BatchCounter && qc.BatchCounter > pc.BatchCounter {
+			add("batches-only-while-running", "paused-in-callback", fmt.Sprintf("context %s was paused by its module during this step (at batch %d) and got batch %d afterwards",
+				x.Sc.ctxName(cb.Ctx), cb.BatchCounter, qc.BatchCounter))
 		}
 	}
 	// contexts that exist before the step
@@ -43,6 +66,13 @@ func (oracleC09) Step(x *OCtx, t *Trans) []Violation {
 				add("context-removed-only-at-an-expiry", "no-expiry-now", fmt.Sprintf("context %s removed at height %d without a batch expiring then", name, H))
 			} else {
 				x.Wit("C09:removed-at-expiry/" + stName(pc.State))
+				// only a finished context ends: one-shot, total reached, or killed (before or, by its module, during this block)
+				finished := !pc.Repeated || stName(pc.State) == "completed" || cbKilled[id] ||
+					(pc.RepeatedTotal > 0 && int64(pc.BatchCounter) >= pc.RepeatedTotal)
+				if !finished {
+					add("only-finished-contexts-end", stName(pc.State), fmt.Sprintf("context %s (%s, batch %d of %d) was removed although it is neither one-shot, nor at its total, nor killed",
+						name, stName(pc.State), pc.BatchCounter, pc.RepeatedTotal))
+				}
 			}
 			continue
 		}
@@ -57,6 +87,9 @@ func (oracleC09) Step(x *OCtx, t *Trans) []Violation {
 			x.Wit("C09:" + ps + "->" + qs + "/" + kind)
 			okTr := false
 			switch {
+			case ps == "running" && qs == "paused" && cbPaused[id]:
+				okTr = pc.Repeated // paused by its owning module (keeper API) from inside a callback
+				x.Wit("C09:paused-by-its-module-inside-a-callback/transition")
 			case ps == "running" && qs == "paused":
 				if (kind == "pause" || kind == "mpause") && t.Res.OK() && a.Ctx == id {
 					okTr = pc.Repeated
